@@ -200,6 +200,21 @@ func (r *Runner) Exec(h *History) ([]*Obs, error) {
 	top := filepath.Join(r.Base, fmt.Sprintf("h%d", id))
 	defer os.RemoveAll(top)
 	loc := h.Loc % len(locNames)
+	placeholder := false
+	for _, c := range h.World.Files {
+		if strings.Contains(c, RootPlaceholder) {
+			placeholder = true
+		}
+	}
+	for _, op := range h.Ops {
+		if strings.Contains(op.Content, RootPlaceholder) {
+			placeholder = true
+		}
+	}
+	// an absolute path inside a goverter: setting cannot contain a space
+	if placeholder && strings.Contains(locNames[loc], " ") {
+		loc = 0
+	}
 	root := filepath.Join(top, locNames[loc])
 	if err := writeTree(root, h.World); err != nil {
 		return nil, &InfraError{Msg: "write world: " + err.Error()}
@@ -253,6 +268,9 @@ func (r *Runner) Exec(h *History) ([]*Obs, error) {
 			}
 		case "relocate":
 			loc = (loc + 1 + op.N) % len(locNames)
+			if placeholder && strings.Contains(locNames[loc], " ") {
+				loc = (loc + 1) % len(locNames)
+			}
 			nroot := filepath.Join(top, fmt.Sprintf("r%d", i), locNames[loc])
 			if err := os.MkdirAll(filepath.Dir(nroot), 0o755); err != nil {
 				return nil, &InfraError{Msg: err.Error()}
